@@ -382,6 +382,36 @@ pub fn canon_stdin() {
                     Err(_) => bad = true,
                 }
                 i += 3;
+            } else if toks[i] == "dl" && i + 1 < toks.len() {
+                match unh(toks[i + 1]).unwrap_or_default().parse::<Date>() {
+                    Ok(d) => w_val(&Value::Date(d), &mut res),
+                    Err(_) => bad = true,
+                }
+                i += 2;
+            } else if toks[i] == "tl" && i + 1 < toks.len() {
+                match unh(toks[i + 1]).unwrap_or_default().parse::<Time>() {
+                    Ok(t) => w_val(&Value::Time(t), &mut res),
+                    Err(_) => bad = true,
+                }
+                i += 2;
+            } else if toks[i] == "Tj" && i + 2 < toks.len() {
+                // Hayson dateTime: `val` through DateTime::parse_from_rfc3339, then re-zoned to `tz` (as parse_datetime does)
+                let val = unh(toks[i + 1]).unwrap_or_default();
+                let tz = if toks[i + 2] == "-" { None } else { unh(toks[i + 2]) };
+                match DateTime::parse_from_rfc3339(&val) {
+                    Ok(date) => match tz {
+                        Some(tz) => {
+                            use chrono::{Offset, Utc};
+                            match libhaystack::timezone::make_date_time_with_tz(&date.with_timezone(&Utc.fix()), &tz) {
+                                Ok(dt) => w_val(&Value::DateTime(dt.into()), &mut res),
+                                Err(_) => bad = true,
+                            }
+                        }
+                        None => w_val(&Value::DateTime(date), &mut res),
+                    },
+                    Err(_) => bad = true,
+                }
+                i += 3;
             } else if toks[i] == "ns" && i + 2 < toks.len() {
                 // `ns H(decimal text) U` (reference reader): the nearest double of the decimal text
                 match unh(toks[i + 1]).unwrap_or_default().parse::<f64>() {
